@@ -119,6 +119,15 @@ func C10(o *world.Obs) *Result {
 			}
 		}
 	}
+	// "an error only when ... no stale response may be used": where C13's model says the stored
+	// response MUST be served, returning the failure instead is a C10 violation as well
+	if !Tampered(o) {
+		for _, v := range C13(o).Violations {
+			if v.Kind == "not-served-in-window" {
+				r.Fail("C10", "failure-returned-although-stale-allowed", v.Ex, "%s", v.Detail)
+			}
+		}
+	}
 	if o.Leak != "" && !strings.Contains(o.Leak, "deadlock") {
 		r.Fail("C10", "goroutine-leak", -1, "goroutines still blocked when the scenario ended: %s", firstLine(o.Leak))
 	}
